@@ -187,6 +187,8 @@ def rule_coherence(ctx):
                 if schs:
                     probs.append((f"engine search path is `{tagof(a)}.main` (no schema selected) but conn.schema_set stays True with "
                                   f"conn.schema `{tagof(sch)}`", "schema"))
+                elif not (isinstance(sch, Const) and sch.v is None):
+                    probs.append((f"engine search path is `{tagof(a)}.main` (no schema selected) but conn.schema still reports `{tagof(sch)}`", "schema"))
             elif schs and not _same_name(sch, b):
                 probs.append((f"engine search path schema is `{tagof(b)}` but conn.schema is `{tagof(sch)}`", "schema"))
             stored = {x for x, _, _ in tr.stores("conn")}
